@@ -15,7 +15,9 @@ RULE = ("real models and generated box buildings with coherent positions (0..40 
 ASSUMPTIONS = ["per-hour plane irradiances are taken from climate::radiation_for_surface (C20's object)",
                "poses enter the exact model as the f32 matrices the implementation uses"]
 TRUSTED = ["modelled: Cte/Model/Fshobst.lean (aggregation, back-face test, candidate counting), Ray.lean, Box.lean"]
-SPEC_FAMILIES = ()
+# the model's sunlit fraction is the property's own statement evaluated in exact arithmetic (ray_hit_iff, pip_eq_evenodd), with a firm
+# bracket for the sample points too close to call: an implementation value outside the bracket is a failing input of the property
+SPEC_FAMILIES = (CORRESPONDENCES[1],)
 _stats = collections.Counter()
 
 
